@@ -130,10 +130,27 @@ fn disturb() {
         let mut o = Options::pretty();
         o.array_limit = Some(json_syntax::print::Limit::Always);
         o.object_limit = Some(json_syntax::print::Limit::Always);
-        let a = v.print_with(o).to_string();
+        let a = v.print_with(o.clone()).to_string();
         let b = v.compact_print().to_string();
         let c = v.pretty_print().to_string();
-        std::hint::black_box((a, b, c));
+        // ... and a print that FAILS part-way (a sink that refuses after a few bytes): whatever
+        // the printer had prepared for it must not leak into the next print
+        struct Limited(usize);
+        impl std::fmt::Write for Limited {
+            fn write_str(&mut self, s: &str) -> std::fmt::Result {
+                if s.len() > self.0 {
+                    return Err(std::fmt::Error);
+                }
+                self.0 -= s.len();
+                Ok(())
+            }
+        }
+        use std::fmt::Write as _;
+        let mut sink = Limited(9);
+        let d = write!(sink, "{}", v.print_with(o)).is_err();
+        let mut sink = Limited(3);
+        let e = write!(sink, "{}", v.compact_print()).is_err();
+        std::hint::black_box((a, b, c, d, e));
     });
 }
 
